@@ -24,7 +24,7 @@ ASSUME = [
     "a pipeline that raises produces no document: that is C01's refuting event, counted here as 'no_document' and not judged",
 ]
 SHARDS = {"quick": 16, "thorough": 16}
-BUDGET_S = {"quick": 45, "thorough": 900}
+BUDGET_S = {"quick": 32, "thorough": 900}
 ANCHORS = ["DocutilsRenderer.render_heading", "DocutilsRenderer.update_section_level_state", "DocutilsRenderer.render_hr", "DocutilsRenderer.render_table", "DocutilsRenderer.render_footnote_reference",
            "CollectFootnotes.apply", "ResolveAnchorIds.apply", "html_to_nodes.html_to_nodes", "MockState.nested_parse", "DocutilsRenderer.render_myst_target", "DocutilsRenderer.copy_attributes"]
 
@@ -91,6 +91,8 @@ def teardown(ctx):
 def eval_case(ctx, case):
     from docutils import nodes
 
+    if case.get("kind") == "suite":
+        return False  # witnesses from the test-suite run are replayed by running the suite again
     text, cfg = case["text"], case.get("cfg", {})
     kw = G.cfg_to_overrides(cfg)
     stages = {}
@@ -169,8 +171,41 @@ def make_case(R, i):
     return {"kind": kind, "text": text, "cfg": cfg, "doctitle": R.random() < 0.3}
 
 
+def run_suite_with_monitor(ctx):
+    """Shard 0: the repository's own test suite with the tree-invariant monitor attached as a pytest plugin (observing only)."""
+    import json
+    import os
+    import subprocess
+    import sys
+    import tempfile
+
+    out = tempfile.mktemp(prefix="c03_suite_", suffix=".json")
+    env = dict(os.environ, MV_MONITOR_OUT=out, PYTHONPATH=os.pathsep.join([core.REPO, core.VERIF]))
+    try:
+        p = subprocess.run([sys.executable, "-m", "pytest", "-q", "-p", "no:cacheprovider", "-p", "mv.pytest_monitor", "-x", "--co", "-q"], cwd=core.REPO, env=env, capture_output=True, text=True, timeout=300)
+        p = subprocess.run([sys.executable, "-m", "pytest", "-q", "-p", "no:cacheprovider", "-p", "mv.pytest_monitor"], cwd=core.REPO, env=env, capture_output=True, text=True, timeout=900)
+        d = json.load(open(out))
+    except Exception as e:  # noqa: BLE001
+        ctx.note_inconclusive(f"the repository test suite could not be run with the monitor attached: {e!r}")
+        return
+    finally:
+        if os.path.exists(out):
+            os.remove(out)
+    ctx.count("suite_tests_run", d["tests"])
+    ctx.count("suite_trees_checked", d["trees"])
+    ctx.count("suite_config_snapshots_checked", d["snapshot_checks"])
+    ctx.notes["suite_warning_tags"] = d["tags"]
+    for key, n in d["violations"].items():
+        w = d["witness"].get(key, {})
+        ctx.violation(key, f"[repository test suite, after parse] {w.get('what', key)} ({n}x)", {"kind": "suite", "text": w.get("text", "")}, None)
+    if d["snapshot_violations"]:
+        ctx.violation("suite:global-config-modified-by-parse", "env.myst_config changed across a MystParser.parse call in the repository test suite", {"kind": "suite", **d["witness"].get("snapshot", {})}, None)
+
+
 def run_shard(ctx):
     R = ctx.rng
+    if ctx.shard == 0:
+        run_suite_with_monitor(ctx)
     n = 6000 if ctx.tier == "quick" else 200000
     for i in range(n):
         case = make_case(R, i)
@@ -185,7 +220,7 @@ def run_shard(ctx):
 
 def finalize(m, tier):
     c = m["counters"]
-    for k, lo in (("trees_checked_after_parse", 5000), ("trees_checked_after_transforms", 5000), ("footnotes_seen", 500), ("tables_seen", 500), ("sections_seen", 2000), ("refids_seen", 1000), ("ids_seen", 5000)):
+    for k, lo in (("trees_checked_after_parse", 5000), ("trees_checked_after_transforms", 5000), ("footnotes_seen", 500), ("tables_seen", 500), ("sections_seen", 2000), ("refids_seen", 1000), ("ids_seen", 5000), ("suite_trees_checked", 300), ("suite_tests_run", 1000)):
         if c.get(k, 0) < lo:
             m["inconclusive"].append(f"monitor observed only {c.get(k, 0)} '{k}' events (< {lo})")
     nodoc = sum(v for k, v in c.items() if k.startswith("no_document:"))
